@@ -393,7 +393,14 @@ fn shape_clone<K: KeyT, V: ValT, const N: usize>(rep: &mut EngineReport, nk: u8,
         }
         if d == 0 {
             lcx.here.op = "clone".into();
+            let before = V::counters();
             let c = src.bx.c.clone();
+            if let (Some(a), Some(b)) = (before, V::counters()) {
+                // counted zero-sized values: one clone per stored value, nothing created or destroyed
+                lcx.check(PM, b[1] - a[1] == src.bx.c.len() as u64 && b[0] == a[0] && b[2] == a[2], || {
+                    format!("cloning a map of {} zero-sized values (with Clone and Drop impls) made {} clones, {} creations and {} destructions", src.bx.c.len(), b[1] - a[1], b[0] - a[0], b[2] - a[2])
+                });
+            }
             let got = codes(&entries_of(&c));
             lcx.check(PM, got == want && c.len() == src.bx.c.len(), || format!("the clone holds {got:?} (len {}) but the original holds {want:?}", c.len()));
             lcx.check(PM, c == src.bx.c && src.bx.c == c, || "clone != original".to_string());
@@ -408,6 +415,13 @@ fn shape_clone<K: KeyT, V: ValT, const N: usize>(rep: &mut EngineReport, nk: u8,
         lcx.check(PM, got == want && dst.bx.c.len() == src.bx.c.len() && dst.bx.c == src.bx.c, || format!("after clone_from dst holds {got:?} but src holds {want:?}"));
         lcx.check(PM, codes(&entries_of(&src.bx.c)) == want, || "clone_from changed the source".to_string());
         invariants(&dst.bx.c, lcx, PM);
+        drop(dst);
+        drop(src);
+        if let Some([made, cloned, gone]) = V::counters() {
+            lcx.check(PM | C02, gone == made + cloned, || {
+                format!("zero-sized values with a destructor: {made} created and {cloned} cloned, but {gone} destroyed once the original and its clones are gone")
+            });
+        }
     });
     let ns = sout.states.len();
     par_states(ns * ns, threads, &mut cx, |i, lcx| {
@@ -450,6 +464,7 @@ fn shapes_n<const N: usize>(rep: &mut EngineReport, nk: u8, nv: u8, threads: usi
     shape_clone::<(), (), N>(rep, nk, nv, threads);
     shape_clone::<(), u8, N>(rep, nk, nv, threads);
     shape_clone::<u8, (), N>(rep, nk, nv, threads);
+    shape_clone::<u8, mc::payload::Zc, N>(rep, nk, nv, threads);
     shape_clone::<u8, u8, N>(rep, nk, nv, threads);
     shape_clone::<String, String, N>(rep, nk, nv, threads);
     shape_clone::<u8, mc::payload::Big, N>(rep, nk, nv, threads);
